@@ -409,6 +409,19 @@ Proof.
   - apply IH. intros x Hx. apply Hd. right. exact Hx.
 Qed.
 
+Lemma nodup_app_l {A} (l1 l2 : list A) : NoDup (l1 ++ l2) -> NoDup l1.
+Proof.
+  induction l1 as [|a l IH]; intros H; [constructor|]. cbn in H. inversion H as [|? ? Hna Hn]; subst.
+  constructor; [|apply IH; exact Hn]. intros Hin. apply Hna. apply in_app_iff. left. exact Hin.
+Qed.
+Lemma nodup_app_r {A} (l1 l2 : list A) : NoDup (l1 ++ l2) -> NoDup l2.
+Proof.
+  induction l1 as [|a l IH]; intros H; [exact H|]. cbn in H. inversion H; subst. apply IH. assumption.
+Qed.
+
+Lemma nonempty_in {A} (l : list A) : l <> [] -> exists x, In x l.
+Proof. destruct l as [|x r]; [intros H; contradiction|intros _; exists x; left; reflexivity]. Qed.
+
 Lemma find_edge_complete N es a b e :
   WF N es -> In e es -> key e = norm a b -> find_edge es a b = Some e.
 Proof.
@@ -873,4 +886,341 @@ Proof.
            ++ intros X. apply B. left. symmetry. exact X.
            ++ intros X. apply B. right. left. symmetry. exact X.
            ++ intros X. apply B. right. right. exact X.
+Qed.
+
+(* ================================================================== the swap step *)
+Section Swap.
+  Context (N : Z) (es : list edge) (u0 v0 m0 m1 : Z) (a0 a1 : list edge) (fixed : bool)
+          (prs : list (edge * edge)).
+  Hypothesis HW : WF N es.
+  Hypothesis G0 : Permutation a0 (corner_edges es u0 m0).
+  Hypothesis G1 : Permutation a1 (corner_edges es v0 m1).
+  Hypothesis SF : SuitFacts es u0 v0 m0 m1 a0 a1.
+  Hypothesis Hf : map fst prs = a0.
+  Hypothesis Hs : Permutation a1 (map snd prs).
+  Hypothesis Ht : forall p, In p prs -> et (snd p) = et (fst p).
+
+  Definition swap_props : list edge := flat_map (pp fixed u0 v0) prs.
+  Definition is_oldb (e : edge) : bool := (touches u0 e && (em e =? m0)) || (touches v0 e && (em e =? m1)).
+  Definition swap_rest : list edge := filter (fun e => negb (is_oldb e)) es.
+
+  Lemma a0_facts e : In e a0 -> In e es /\ touches u0 e = true /\ em e = m0.
+  Proof. intros H. apply corner_edges_In. eapply Permutation_in; eauto. Qed.
+  Lemma a1_facts e : In e a1 -> In e es /\ touches v0 e = true /\ em e = m1.
+  Proof. intros H. apply corner_edges_In. eapply Permutation_in; eauto. Qed.
+
+  Lemma prs_in p : In p prs -> In (fst p) a0 /\ In (snd p) a1.
+  Proof.
+    intros H. split.
+    - rewrite <- Hf. apply in_map. exact H.
+    - eapply Permutation_in; [apply Permutation_sym; exact Hs|]. apply in_map. exact H.
+  Qed.
+
+  Lemma es_split : Permutation es (a0 ++ a1 ++ swap_rest).
+  Proof.
+    eapply Permutation_trans; [apply (filter_split_perm is_oldb)|]. rewrite app_assoc.
+    apply Permutation_app; [|apply Permutation_refl].
+    eapply Permutation_trans.
+    - unfold is_oldb. apply (filter_or_perm (fun e => touches u0 e && (em e =? m0)) (fun e => touches v0 e && (em e =? m1))).
+      intros e He H1 H2. apply andb_true_iff in H1, H2. destruct H1 as [T1 E1], H2 as [T2 E2].
+      apply Z.eqb_eq in E1, E2. apply (sf_v0 _ _ _ _ _ _ _ SF e He T2 E1).
+    - apply Permutation_app; apply Permutation_sym; assumption.
+  Qed.
+
+  Lemma a_nodup : NoDup (a0 ++ a1).
+  Proof.
+    assert (Hn : NoDup es) by (destruct HW as [_ Hn]; eapply nodup_of_map; eauto).
+    eapply Permutation_NoDup in Hn; [|apply es_split]. rewrite app_assoc in Hn.
+    apply nodup_app_l in Hn. exact Hn.
+  Qed.
+
+  (* vertices and keys of the proposals *)
+  Lemma range_of e : In e es -> 0 <= ea e /\ ea e < eb e /\ eb e < N.
+  Proof. destruct HW as [Hr _]. apply Hr. Qed.
+
+  Lemma other_range u e : In e es -> touches u e = true -> 0 <= other u e < N /\ 0 <= u < N.
+  Proof.
+    intros He Hte. pose proof (range_of e He). apply touches_iff in Hte. unfold other.
+    destruct (Z.eqb_spec (ea e) u); destruct Hte; subst; lia.
+  Qed.
+
+  Lemma u0_ne_v1 e1 : In e1 a1 -> u0 <> other v0 e1.
+  Proof.
+    intros H E. destruct (a1_facts e1 H) as [He [Tv Em]].
+    apply (sf_u0 _ _ _ _ _ _ _ SF e1 He); [|exact Em]. rewrite E. eapply other_touches; eauto.
+  Qed.
+  Lemma v0_ne_u1 e0 : In e0 a0 -> v0 <> other u0 e0.
+  Proof.
+    intros H E. destruct (a0_facts e0 H) as [He [Tu Em]].
+    apply (sf_v0 _ _ _ _ _ _ _ SF e0 He); [|exact Em]. rewrite E. eapply other_touches; eauto.
+  Qed.
+  Lemma u0_ne_v0 : u0 <> v0.
+  Proof.
+    intros E. destruct (nonempty_in a0 (sf_ne _ _ _ _ _ _ _ SF)) as [f0 Hf0].
+    destruct (a0_facts f0 Hf0) as [He [Tu Em]].
+    apply (sf_v0 _ _ _ _ _ _ _ SF f0 He); [rewrite <- E; exact Tu|exact Em].
+  Qed.
+
+  (* the keys of the proposals of one pair *)
+  Lemma pp_keys p : map key (pp fixed u0 v0 p) = [norm u0 (other v0 (snd p)); norm v0 (other u0 (fst p))].
+  Proof. unfold pp. destruct fixed; cbn [map]; rewrite !key_mk_edge; reflexivity. Qed.
+
+  Lemma props_keys : map key swap_props =
+    flat_map (fun p => [norm u0 (other v0 (snd p)); norm v0 (other u0 (fst p))]) prs.
+  Proof.
+    unfold swap_props. clear Hf Hs Ht. induction prs as [|p r IH]; [reflexivity|]. cbn [flat_map]. rewrite map_app, pp_keys, IH. reflexivity.
+  Qed.
+
+  Lemma props_key_in k : In k (map key swap_props) ->
+    (exists e1, In e1 a1 /\ k = norm u0 (other v0 e1)) \/ (exists e0, In e0 a0 /\ k = norm v0 (other u0 e0)).
+  Proof.
+    rewrite props_keys. intros H. apply in_flat_map in H. destruct H as [p [Hp Hk]].
+    destruct (prs_in p Hp) as [H0 H1]. destruct Hk as [<-|[<-|[]]]; [left|right]; eauto.
+  Qed.
+
+  Lemma props_new p : In p swap_props -> ~ In (key p) (map key es).
+  Proof.
+    intros Hp. assert (Hk : In (key p) (map key swap_props)) by (apply in_map; exact Hp).
+    apply props_key_in in Hk. destruct Hk as [[e1 [H1 ->]]|[e0 [H0 ->]]].
+    - apply has_edge_false. apply (sf_new1 _ _ _ _ _ _ _ SF). exact H1.
+    - apply has_edge_false. apply (sf_new0 _ _ _ _ _ _ _ SF). exact H0.
+  Qed.
+
+  Lemma props_wf p : In p swap_props -> 0 <= ea p /\ ea p < eb p /\ eb p < N.
+  Proof.
+    intros Hp. unfold swap_props in Hp. apply in_flat_map in Hp. destruct Hp as [q [Hq Hp]].
+    destruct (prs_in q Hq) as [H0 H1].
+    destruct (a0_facts _ H0) as [He0 [T0 _]]. destruct (a1_facts _ H1) as [He1 [T1 _]].
+    pose proof (other_range u0 _ He0 T0) as R0. pose proof (other_range v0 _ He1 T1) as R1.
+    pose proof (u0_ne_v1 _ H1) as Nu. pose proof (v0_ne_u1 _ H0) as Nv.
+    assert (X : forall a b t m, 0 <= a < N -> 0 <= b < N -> a <> b ->
+                0 <= ea (mk_edge a b t m) /\ ea (mk_edge a b t m) < eb (mk_edge a b t m) /\ eb (mk_edge a b t m) < N).
+    { intros a b t m Ra Rb Hab. unfold mk_edge, norm. cbn. destruct (Z.leb_spec a b); cbn; lia. }
+    unfold pp in Hp. destruct fixed; destruct Hp as [<-|[<-|[]]]; apply X; tauto.
+  Qed.
+
+  Lemma snd_nodup : NoDup (map snd prs).
+  Proof.
+    eapply Permutation_NoDup; [exact Hs|]. pose proof a_nodup as H. apply nodup_app_r in H. exact H.
+  Qed.
+  Lemma fst_nodup : NoDup (map fst prs).
+  Proof. rewrite Hf. pose proof a_nodup as H. apply nodup_app_l in H. exact H. Qed.
+
+  Lemma props_nodup : NoDup (map key swap_props).
+  Proof.
+    rewrite props_keys. pose proof snd_nodup as Hsn. pose proof fst_nodup as Hfn.
+    assert (Hsub : forall p, In p prs -> In (fst p) a0 /\ In (snd p) a1) by apply prs_in.
+    clear Hf Hs Ht. induction prs as [|p r IH]; [constructor|].
+    cbn [flat_map map app] in *. inversion Hsn as [|? ? Hs1 Hs2]; subst. inversion Hfn as [|? ? Hf1 Hf2]; subst.
+    assert (IH' := IH Hs2 Hf2 (fun q Hq => Hsub q (or_intror Hq))). clear IH.
+    destruct (Hsub p (or_introl eq_refl)) as [Hp0 Hp1].
+    assert (Hrest : forall k, In k (flat_map (fun p => [norm u0 (other v0 (snd p)); norm v0 (other u0 (fst p))]) r) ->
+              exists q, In q r /\ (k = norm u0 (other v0 (snd q)) \/ k = norm v0 (other u0 (fst q)))).
+    { intros k Hk. apply in_flat_map in Hk. destruct Hk as [q [Hq Hk]]. exists q. split; [exact Hq|].
+      destruct Hk as [<-|[<-|[]]]; auto. }
+    (* helper: equal keys force equal corner edges *)
+    assert (K1 : forall e e', In e a1 -> In e' a1 -> norm u0 (other v0 e) = norm u0 (other v0 e') -> e = e').
+    { intros e e' He He' E. apply norm_inj_l in E.
+      destruct (a1_facts e He) as [A [B _]]. destruct (a1_facts e' He') as [A' [B' _]]. eapply other_inj; eauto. }
+    assert (K0 : forall e e', In e a0 -> In e' a0 -> norm v0 (other u0 e) = norm v0 (other u0 e') -> e = e').
+    { intros e e' He He' E. apply norm_inj_l in E.
+      destruct (a0_facts e He) as [A [B _]]. destruct (a0_facts e' He') as [A' [B' _]]. eapply other_inj; eauto. }
+    assert (K01 : forall e1 e0, In e1 a1 -> In e0 a0 -> norm u0 (other v0 e1) <> norm v0 (other u0 e0)).
+    { intros e1 e0 H1 H0 E. apply norm_eq_cases in E. destruct E as [[E _]|[E _]].
+      - exact (u0_ne_v0 E).
+      - destruct (a0_facts e0 H0) as [A [B _]]. destruct (key_other N es u0 e0 HW A B) as [_ X]. congruence. }
+    constructor.
+    - cbn [In]. intros [E|Hin].
+      + apply (K01 _ _ Hp1 Hp0). symmetry. exact E.
+      + apply Hrest in Hin. destruct Hin as [q [Hq [E|E]]].
+        * destruct (Hsub q (or_intror Hq)) as [_ Hq1]. apply K1 in E; auto. apply Hs1. rewrite E. apply in_map. exact Hq.
+        * destruct (Hsub q (or_intror Hq)) as [Hq0 _]. exact (K01 _ _ Hp1 Hq0 E).
+    - constructor; [|exact IH'].
+      intros Hin. apply Hrest in Hin. destruct Hin as [q [Hq [E|E]]].
+      + destruct (Hsub q (or_intror Hq)) as [_ Hq1]. apply (K01 _ _ Hq1 Hp0). symmetry. exact E.
+      + destruct (Hsub q (or_intror Hq)) as [Hq0 _]. apply K0 in E; auto. apply Hf1. rewrite E. apply in_map. exact Hq.
+  Qed.
+
+  (* the multisets of stubs and labels of the proposals equal those of the removed corners *)
+  Lemma props_stubs : Permutation (stubs swap_props) (stubs (a0 ++ a1)).
+  Proof.
+    eapply Permutation_trans.
+    2:{ apply stubs_perm. eapply Permutation_trans; [apply pairs_flat_perm|].
+        rewrite Hf. apply Permutation_app; [apply Permutation_refl|apply Permutation_sym; exact Hs]. }
+    unfold swap_props. pose proof prs_in as Hsub. clear Hf Hs. induction prs as [|p r IH]; [constructor|].
+    cbn [flat_map]. rewrite stubs_app.
+    change (stubs (fst p :: snd p :: flat_map (fun p => [fst p; snd p]) r))
+      with (stubs ([fst p; snd p] ++ flat_map (fun p => [fst p; snd p]) r)).
+    rewrite stubs_app. apply Permutation_app.
+    - destruct (Hsub p (or_introl eq_refl)) as [H0 H1].
+      destruct (a0_facts _ H0) as [A0 [B0 _]]. destruct (a1_facts _ H1) as [A1 [B1 _]].
+      destruct p as [e0 e1]. eapply stubs_pp; eauto. apply (Ht (e0, e1)). left; reflexivity.
+    - apply IH; [intros q Hq; apply Ht; right; exact Hq|intros q Hq; apply Hsub; right; exact Hq].
+  Qed.
+
+  Lemma props_labels : Permutation (labels swap_props) (labels (a0 ++ a1)).
+  Proof.
+    eapply Permutation_trans.
+    2:{ apply labels_perm. eapply Permutation_trans; [apply pairs_flat_perm|].
+        rewrite Hf. apply Permutation_app; [apply Permutation_refl|apply Permutation_sym; exact Hs]. }
+    unfold swap_props. clear Hf Hs Ht. induction prs as [|p r IH]; [constructor|].
+    cbn [flat_map]. rewrite labels_app.
+    change (labels (fst p :: snd p :: flat_map (fun p => [fst p; snd p]) r))
+      with (labels ([fst p; snd p] ++ flat_map (fun p => [fst p; snd p]) r)).
+    rewrite labels_app. apply Permutation_app; [destruct p; apply labels_pp|exact IH].
+  Qed.
+
+  Lemma props_length : length swap_props = length (a0 ++ a1).
+  Proof.
+    pose proof (Permutation_length props_labels) as H. unfold labels in H. rewrite !map_length in H. exact H.
+  Qed.
+
+  (* the resulting graph *)
+  Definition swap_es' : list edge := swap_rest ++ swap_props.
+
+  Lemma swap_wf : WF N swap_es'.
+  Proof.
+    split.
+    - intros e He. unfold swap_es' in He. apply in_app_iff in He. destruct He as [He|He].
+      + apply filter_In in He. apply range_of. tauto.
+      + apply props_wf. exact He.
+    - unfold swap_es'. rewrite map_app. apply nodup_app.
+      + apply nodup_filter_map. destruct HW as [_ Hn]. exact Hn.
+      + exact props_nodup.
+      + intros k Hk Hk2. apply in_map_iff in Hk2. destruct Hk2 as [p [<- Hp]]. apply (props_new p Hp).
+        apply in_map_iff in Hk. destruct Hk as [e [E He]]. apply filter_In in He. apply in_map_iff. exists e. tauto.
+  Qed.
+
+  Lemma swap_counts (f : list edge -> list (Z * nat)) :
+    (forall l1 l2, f (l1 ++ l2) = f l1 ++ f l2) -> (forall l1 l2, Permutation l1 l2 -> Permutation (f l1) (f l2)) ->
+    Permutation (f swap_props) (f (a0 ++ a1)) -> forall s, count_stub s (f swap_es') = count_stub s (f es).
+  Proof.
+    intros Happ Hperm Hpr s. unfold swap_es'.
+    rewrite (count_stub_perm s _ _ (Hperm _ _ es_split)). rewrite app_assoc, !Happ, !count_stub_app.
+    rewrite (count_stub_perm s _ _ Hpr). rewrite Happ, count_stub_app. lia.
+  Qed.
+
+  Theorem swap_hard nodes : Z.of_nat (length nodes) = N -> Hard nodes es nodes swap_es'.
+  Proof.
+    intros HN. split; [reflexivity|]. split; [rewrite HN; exact swap_wf|]. split.
+    - unfold swap_es'. rewrite app_length, props_length. rewrite (Permutation_length es_split).
+      rewrite !app_length. lia.
+    - split.
+      + intros v t. unfold tdeg. apply (swap_counts stubs stubs_app stubs_perm props_stubs).
+      + intros m t. unfold class_count. apply (swap_counts labels labels_app labels_perm props_labels).
+  Qed.
+End Swap.
+
+Lemma Hard_refl nodes es : WF (Z.of_nat (length nodes)) es -> Hard nodes es nodes es.
+Proof. intros H. split; [reflexivity|]. split; [exact H|]. split; [reflexivity|]. split; intros; reflexivity. Qed.
+
+Lemma Hard_trans n0 e0 n1 e1 n2 e2 : Hard n0 e0 n1 e1 -> Hard n1 e1 n2 e2 -> Hard n0 e0 n2 e2.
+Proof.
+  intros [A1 [B1 [C1 [D1 E1]]]] [A2 [B2 [C2 [D2 E2]]]]. split; [congruence|]. split; [exact B2|].
+  split; [congruence|]. split; intros; [rewrite D2; apply D1|rewrite E2; apply E1].
+Qed.
+
+(* ================================================================== the concrete apply step *)
+Lemma is_oldb_iff es u0 v0 m0 m1 a0 a1 e :
+  Permutation a0 (corner_edges es u0 m0) -> Permutation a1 (corner_edges es v0 m1) -> In e es ->
+  (is_oldb u0 v0 m0 m1 e = true <-> In e (a0 ++ a1)).
+Proof.
+  intros G0 G1 He. unfold is_oldb. rewrite orb_true_iff, !andb_true_iff, !Z.eqb_eq, in_app_iff.
+  split; intros [H|H].
+  - left. eapply Permutation_in; [apply Permutation_sym; exact G0|]. apply corner_edges_In. tauto.
+  - right. eapply Permutation_in; [apply Permutation_sym; exact G1|]. apply corner_edges_In. tauto.
+  - left. apply (Permutation_in _ G0) in H. apply corner_edges_In in H. tauto.
+  - right. apply (Permutation_in _ G1) in H. apply corner_edges_In in H. tauto.
+Qed.
+
+Theorem apply_swap_ok N es u0 v0 m0 m1 a0 a1 fixed prs d :
+  WF N es ->
+  Permutation a0 (corner_edges es u0 m0) -> Permutation a1 (corner_edges es v0 m1) ->
+  SuitFacts es u0 v0 m0 m1 a0 a1 ->
+  map fst prs = a0 -> Permutation a1 (map snd prs) -> (forall p, In p prs -> et (snd p) = et (fst p)) ->
+  Mirror N es d ->
+  exists d', apply_swap N (length es) es d u0 v0 (map (other u0) a0) (map (other v0) a1)
+                        (swap_props u0 v0 fixed prs)
+             = Ok (swap_es' es u0 v0 m0 m1 fixed prs, d')
+             /\ Mirror N (swap_es' es u0 v0 m0 m1 fixed prs) d'.
+Proof.
+  intros HW G0 G1 SF Hf Hs Ht [HI Hm].
+  set (P := swap_props u0 v0 fixed prs).
+  assert (Pwf : forall p, In p P -> 0 <= ea p /\ ea p < eb p /\ eb p < N)
+    by (intros p Hp; eapply (props_wf N es u0 v0 m0 m1 a0 a1); eauto).
+  assert (Pnew : forall p, In p P -> ~ In (key p) (map key es))
+    by (intros p Hp; eapply (props_new es u0 v0 m0 m1 a0 a1); eauto).
+  assert (Pnd : NoDup (map key P)) by (eapply (props_nodup N es u0 v0 m0 m1 a0 a1); eauto).
+  assert (And : NoDup (a0 ++ a1)) by (eapply (a_nodup N es u0 v0 m0 m1); eauto).
+  pose proof (sf_len _ _ _ _ _ _ _ SF) as Hlen.
+  unfold apply_swap.
+  rewrite (add_props_ok N P es d); [|intros p Hp; apply Pwf in Hp; lia|exact Pnew|exact Pnd].
+  destruct (fold_add_spec N P d HI) as [HI1 Hm1].
+  set (d1 := fold_left (fun d p => ds_add d (enc N p)) P d) in *.
+  assert (HzL : forall e, In e (zipL a0 a1) <-> In e (a0 ++ a1)).
+  { intros e. split; apply Permutation_in; [|apply Permutation_sym]; apply zipL_perm; exact Hlen. }
+  assert (Hsub : forall e, In e (a0 ++ a1) -> In e es).
+  { intros e He. apply in_app_iff in He. destruct He as [He|He].
+    - apply (Permutation_in _ G0) in He. apply corner_edges_In in He. tauto.
+    - apply (Permutation_in _ G1) in He. apply corner_edges_In in He. tauto. }
+  assert (Hrange : forall e, In e (es ++ P) -> 0 <= ea e /\ ea e < eb e /\ eb e < N).
+  { intros e He. apply in_app_iff in He. destruct He as [He|He]; [destruct HW as [Hr _]; apply Hr; exact He|apply Pwf; exact He]. }
+  assert (Hinj : forall e e', In e (es ++ P) -> In e' (es ++ P) -> enc N e = enc N e' -> key e = key e').
+  { intros e e' He He' E. apply Hrange in He, He'. apply (enc_inj N); tauto. }
+  assert (Hndk : NoDup (map key (es ++ P))).
+  { rewrite map_app. apply nodup_app; [destruct HW; assumption|exact Pnd|].
+    intros k Hk Hk2. apply in_map_iff in Hk2. destruct Hk2 as [p [<- Hp]]. exact (Pnew p Hp Hk). }
+  destruct (remove_olds_ok N u0 v0 a0 a1 (es ++ P) d1) as [g [d' [Hr [Hg [HId Hmd]]]]].
+  - exact Hlen.
+  - exact Hndk.
+  - exact Hinj.
+  - eapply Permutation_NoDup; [apply Permutation_sym; apply zipL_perm; exact Hlen|exact And].
+  - intros e He. apply in_app_iff. left. apply Hsub. apply HzL. exact He.
+  - intros e He. assert (X : In e (a0 ++ a1)) by (apply in_app_iff; left; exact He).
+    apply (Permutation_in _ G0) in He. apply corner_edges_In in He. destruct He as [A [B _]].
+    apply (key_other N es u0 e HW A B).
+  - intros e He. apply (Permutation_in _ G1) in He. apply corner_edges_In in He. destruct He as [A [B _]].
+    apply (key_other N es v0 e HW A B).
+  - exact HI1.
+  - intros e He. apply Hm1. left. apply Hm. apply in_map. apply Hsub. apply HzL. exact He.
+  - rewrite Hr.
+    assert (Hes' : filter g (es ++ P) = swap_es' es u0 v0 m0 m1 fixed prs).
+    { rewrite filter_app. unfold swap_es', swap_rest. f_equal.
+      - apply filter_ext_in. intros e He.
+        destruct (g e) eqn:Eg; destruct (is_oldb u0 v0 m0 m1 e) eqn:Eo; cbn; try reflexivity; exfalso.
+        + apply (Hg e) in Eg; [|apply in_app_iff; left; exact He]. apply Eg. apply HzL.
+          apply (is_oldb_iff es u0 v0 m0 m1 a0 a1 e G0 G1 He). exact Eo.
+        + assert (X : g e = true).
+          { apply Hg; [apply in_app_iff; left; exact He|]. intros X. apply HzL in X.
+            apply (is_oldb_iff es u0 v0 m0 m1 a0 a1 e G0 G1 He) in X. congruence. }
+          congruence.
+      - fold P. assert (X : forall p, In p P -> g p = true).
+        { intros p Hp. apply Hg; [apply in_app_iff; right; exact Hp|]. intros X. apply HzL, Hsub in X.
+          apply (Pnew p Hp). apply in_map. exact X. }
+        clear -X. induction P as [|p r IH]; [reflexivity|]. cbn. rewrite (X p (or_introl eq_refl)). f_equal.
+        apply IH. intros q Hq. apply X. right. exact Hq. }
+    rewrite Hes'.
+    assert (Hl : length (swap_es' es u0 v0 m0 m1 fixed prs) = length es).
+    { unfold swap_es'. rewrite app_length.
+      assert (X1 : length (swap_props u0 v0 fixed prs) = length (a0 ++ a1)) by (eapply props_length; eauto).
+      assert (X2 : Permutation es (a0 ++ a1 ++ swap_rest es u0 v0 m0 m1)) by (eapply es_split; eauto).
+      rewrite X1. rewrite (Permutation_length X2). rewrite !app_length. lia. }
+    rewrite Hl, Nat.eqb_refl. exists d'. split; [reflexivity|]. split; [exact HId|].
+    intros k. rewrite Hmd, Hm1, Hm. unfold swap_es'. rewrite map_app, in_app_iff. fold P. split.
+    + intros [[Hk|Hk] Hn]; [|right; exact Hk]. left. apply in_map_iff in Hk. destruct Hk as [e [<- He]].
+      apply in_map. apply filter_In. split; [exact He|]. rewrite negb_true_iff.
+      destruct (is_oldb u0 v0 m0 m1 e) eqn:Eo; [|reflexivity]. exfalso. apply Hn. apply in_map. apply HzL.
+      apply (is_oldb_iff es u0 v0 m0 m1 a0 a1 e G0 G1 He). exact Eo.
+    + intros [Hk|Hk].
+      * apply in_map_iff in Hk. destruct Hk as [e [<- He]]. apply filter_In in He. destruct He as [He Ho].
+        split; [left; apply in_map; exact He|]. intros Hin. apply in_map_iff in Hin. destruct Hin as [e' [E He']].
+        apply HzL in He'. pose proof (Hsub _ He') as He'es.
+        assert (e' = e).
+        { apply (nodup_map_inj key es); [destruct HW; assumption|exact He'es|exact He|].
+          apply Hinj; [apply in_app_iff; left; exact He'es|apply in_app_iff; left; exact He|exact E]. }
+        subst e'. apply (is_oldb_iff es u0 v0 m0 m1 a0 a1 e G0 G1 He) in He'. rewrite He' in Ho. discriminate.
+      * split; [right; exact Hk|]. intros Hin. apply in_map_iff in Hk. destruct Hk as [p [<- Hp]].
+        apply in_map_iff in Hin. destruct Hin as [e' [E He']]. apply HzL, Hsub in He'.
+        apply (Pnew p Hp). assert (key e' = key p) by (apply Hinj; [apply in_app_iff; left; auto|apply in_app_iff; right; auto|exact E]).
+        rewrite <- H. apply in_map. exact He'.
 Qed.
